@@ -26,3 +26,22 @@ Print Assumptions C12_acts_linearly.
 Theorem C12_constructors_agree : forall a b, adapt_xyY a b = adapt (xyz_of a) (xyz_of b).
 Proof. exact constructors_agree. Qed.
 Print Assumptions C12_constructors_agree.
+
+(* The white-point clause in floats (Mat/AdaptClose.v): AdaptBetweenXYZWhitePoints(A, B).Apply(A), evaluated
+   as the code evaluates it (Mat3F.adaptF / applyF: the model compared bit for bit with the implementation;
+   bradfordInverse evaluated inside Coq), is finite and within 1e-6 of B for EVERY pair of finite float32
+   white points with components of magnitude at most 4 whose source cone responses are at least 1/4 in
+   magnitude.  The premises hold for the library's D50 and D65 (second theorem): not vacuous. *)
+From Flocq Require Import Core IEEE754.BinarySingleNaN.
+From PrismV Require Import Num.F64 Mat.Mat3F Mat.AdaptClose.
+Theorem C12_white_to_white_float32 : forall A B : vecG f32,
+  white_valid A -> white_valid B -> cones_valid A ->
+  let r := applyF (adaptF A B) A in
+  finV32 r /\
+  Rabs (B2R (v0 r) - B2R (v0 B)) <= / 1000000 /\ Rabs (B2R (v1 r) - B2R (v1 B)) <= / 1000000 /\ Rabs (B2R (v2 r) - B2R (v2 B)) <= / 1000000.
+Proof. exact adapt_white_close. Qed.
+Print Assumptions C12_white_to_white_float32.
+Theorem C12_validity_holds_for_D50_and_D65 :
+  (white_valid d50_32 /\ cones_valid d50_32) /\ (white_valid d65_32 /\ cones_valid d65_32).
+Proof. exact d50_d65_valid. Qed.
+Print Assumptions C12_validity_holds_for_D50_and_D65.
